@@ -50,7 +50,7 @@ PROPS = {
                      mc("MCSendLoop", "MCSendLoop_defect.cfg", workers=2, expect_violation="Terminates")],
         "mc_thorough": [mc("MCChunkPlan", "MCChunkPlan_small.cfg"), mc("MCChunkPlan", "MCChunkPlan_real_thorough.cfg", workers=16, timeout=3000),
                         mc("MCSendLoop", "MCSendLoop.cfg", workers=2), mc("MCSendLoop", "MCSendLoop_real.cfg", workers=2)],
-        "require_classes": ["w:partial", "w:multi-chunk"],
+        "require_classes": ["w:partial", "w:multi-chunk", "w:large-then-small"],
         "rule": "one case = one probe write (input length, buffer length) on a fresh writer, grouped in rows per buffer length, "
                 "or one whole-body send loop with a fixed buffer; distinct = distinct (buffer length, input length) / loop configuration",
         "assumptions": BW_ASSUME,
@@ -124,7 +124,7 @@ PROPS["C02"] = {
 PROPS["C16"] = {
     "driver": "c16", "trace_spec": "TraceSendHead",
     "mc_quick": [mc("MCSendHead", "MCSendHead.cfg")],
-    "require_classes": ["c16:added-on-redirected", "c16:despite", "req:accepted"],
+    "require_classes": ["c16:added-on-redirected", "c16:despite", "req:accepted", "c16:added-both-framing-headers"],
     "rule": "one case = a flow at redirect depth 0..3 (both auth policies) whose original request carries cookie/authorization/content-length, with 0..58 caller-added headers "
             "drawn from cookie, authorization, content-length, host, connection, x-*; the head is written through buffer schedules and lexed; distinct = distinct (method, depth, count class, policy)",
     "assumptions": REQ_ASSUME,
@@ -132,7 +132,7 @@ PROPS["C16"] = {
 PROPS["C17"] = {
     "driver": "c17", "trace_spec": "TraceSendHead",
     "mc_quick": [mc("MCSendHead", "MCSendHead.cfg")],
-    "require_classes": ["req:rejected", "req:accepted"],
+    "require_classes": ["req:rejected", "req:accepted", "req:on-redirected-flow"],
     "rule": "one case = one cell of versions {0.9,1.0,1.1,2,3} x 9 methods x Host {none, orig, added, orig+added, two, non-text} x Content-Length {none,5,0,two,-1,abc,non-UTF-8,added,orig+added} "
             "x Transfer-Encoding {none, chunked, non-text, added} x despite x {Flow, Call::without_body, Call::with_body}; three writes with buffers {0,16,large} on rejected requests; "
             "quick = a stratified ninth (by seed), thorough = all; distinct = distinct cells",
@@ -182,17 +182,17 @@ REDIR_ASSUME = ["requests carry no explicit Host header; the reference grammar i
 PROPS["C13"] = {
     "driver": "c13", "trace_spec": "TraceRedirect", "scripts": "redirect",
     "mc_quick": REDIR_MC_Q, "mc_thorough": REDIR_MC_T,
-    "require_classes": ["hop:second-or-later", "hop:auth-kept", "hop:not-followed"],
+    "require_classes": ["hop:second-or-later", "hop:auth-kept", "hop:not-followed", "hop:caller-sets-credentials", "hop:despite-on-redirected"],
     "rule": "one case = one redirect chain of 1..4 hops (model edge-cover scripts; seeded random chains over absolute / scheme-relative / path-absolute / relative / query-only / empty "
             "references with fragments and decoy Location fields; directed leave-and-return, scheme downgrade, port change chains), original request with Authorization, Cookie, Content-Length, "
             "both policies; the head of every hop's request is written and lexed; distinct = distinct scripts / (method, hops, dead end)",
     "assumptions": REDIR_ASSUME,
 }
-PROPS["C14"] = dict(PROPS["C13"], driver="c14", require_classes=["hop:second-or-later", "hop:bad-location", "hop:several-locations"])
+PROPS["C14"] = dict(PROPS["C13"], driver="c14", require_classes=["hop:second-or-later", "hop:bad-location", "hop:several-locations", "hop:despite-on-redirected"])
 PROPS["C15"] = {
     "driver": "c15", "trace_spec": "TraceRedirect",
     "mc_quick": REDIR_MC_Q[:1] + REDIR_MC_Q[4:], "mc_thorough": REDIR_MC_T,
-    "require_classes": ["hop:not-followed", "hop:despite-method"], "require_kinds": ["hop", "landed"],
+    "require_classes": ["hop:not-followed", "hop:despite-method", "hop:after-interim-100", "hop:interim-100-surfaced"], "require_kinds": ["hop", "landed"],
     "rule": "one case = one flow: 9 methods x every status 300..399 x both auth policies x with/without response body (3600 flows, all of them in both tiers); "
             "distinct = distinct (method, status)",
     "assumptions": REDIR_ASSUME,
